@@ -28,6 +28,7 @@ import CtyModel.Lemmas.d14Regex
 import CtyModel.Lemmas.d14Json
 import CtyModel.Lemmas.d14Glue
 import CtyModel.Lemmas.d14Dispatch
+import CtyModel.Lemmas.d14bRef
 import CtyModel.Props.C02
 namespace CtyModel
 namespace C14
@@ -1107,6 +1108,144 @@ example : flLen [sv "x", intVal 3] none = .ok none := by decide
 -- indent: the side conditions are satisfiable, and 2^40 spaces on a string without a line break are fine
 example : countNewlines "a\nb\n".toList = 2 := by decide
 example : indentChars 2 "a\nb".toList = "a\n  b".toList := by decide
+
+/-! ## d14b — the strings package behind split / trim, and the error domain of log / pow
+
+`D14b.goSplit`, `goTrimPrefix`, `goTrimSuffix`, `goTrimSpace`, `goTrim` transliterate
+strings.Split, TrimPrefix, TrimSuffix, TrimSpace, Trim on code points; `D14b.refLib L`
+answers the five library calls with them, and the op `std.glue.ref` diffs the real
+`SplitFunc`, `TrimPrefixFunc`, … against `splitImpl (refLib L)`, … with only NFC recorded.
+`D14b.logNaN` / `powNaN` say from the arguments alone when package math answers NaN;
+`std.dom` diffs the ok/err class of the real `LogFunc` / `PowFunc` against them. -/
+
+open D14b in
+/-- `split(sep, str)` is the list of the NFC forms of the pieces of `strings.Split(str, sep)`
+(note the argument order), with the strings package transliterated, not an oracle. -/
+theorem split_reference (L : Lib) (sep str : String) :
+    splitImpl (refLib L) [sv sep, sv str] =
+      .ok ⟨.list .string, .seq (((goSplit str.toList sep.toList).map String.ofList).map fun s => .s (L.nfc s))⟩ :=
+  splitImpl_ref L sep str
+
+open D14b in
+/-- `split` agrees with Go: `strings.Join(strings.Split(s, sep), sep) == s` — the pieces, in
+order, with the separator between them, are the string; for EVERY separator (the empty one too). -/
+theorem split_join_inverse (s sep : List Char) : goJoin sep (goSplit s sep) = s := goJoin_goSplit s sep
+
+open D14b in
+/-- … and the pieces are cut at the FIRST occurrence each time: the first piece is what
+precedes the first occurrence of a non-empty separator (`strings.Index`), the others are
+the split of what follows it; without an occurrence the string comes back whole. Together
+with `split_join_inverse` this determines `strings.Split` for a non-empty separator. -/
+theorem split_cuts_at_first_occurrence (s sep : List Char) (hsep : sep ≠ []) :
+    (∀ i, goIndex sep s = some i → goSplit s sep = s.take i :: goSplit (s.drop (i + sep.length)) sep) ∧
+    (goIndex sep s = none → goSplit s sep = [s]) :=
+  ⟨fun _ h => goSplit_step hsep h, goSplit_absent hsep⟩
+
+open D14b in
+/-- `strings.Index` reports a position where the separator really stands. -/
+theorem index_is_an_occurrence (s sep : List Char) (i : Nat) (h : goIndex sep s = some i) :
+    s = s.take i ++ sep ++ s.drop (i + sep.length) := goIndex_some h
+
+open D14b in
+/-- The corner cases as Go defines them: an empty separator explodes the string into its
+code points (so `split("", "")` is the empty list), and an empty string with a non-empty
+separator gives the list of one empty string. -/
+theorem split_corner_cases (s sep : List Char) :
+    goSplit s [] = s.map ([·]) ∧ goSplit [] [] = [] ∧ (sep ≠ [] → goSplit [] sep = [[]]) :=
+  ⟨rfl, rfl, goSplit_nil⟩
+
+open D14b in
+/-- The loop bound of the model is immaterial (Go bounds the loop by `Count(s, sep)`; the
+model by any number above the length). -/
+theorem split_fuel_immaterial (sep : List Char) (hsep : sep ≠ []) (f g : Nat) (s : List Char)
+    (hf : s.length < f) (hg : s.length < g) : splitLoop sep f s = splitLoop sep g s :=
+  splitLoop_fuel hsep f g s hf hg
+
+open D14b in
+/-- `trimprefix`, `trimsuffix`, `trimspace`, `trim` are NFC of the transliterated
+strings.TrimPrefix / TrimSuffix / TrimSpace / Trim. -/
+theorem trim_family_reference (L : Lib) (a b : String) :
+    trimPrefixImpl (refLib L) [sv a, sv b] = .ok (stringVal L.nfc (String.ofList (goTrimPrefix a.toList b.toList))) ∧
+    trimSuffixImpl (refLib L) [sv a, sv b] = .ok (stringVal L.nfc (String.ofList (goTrimSuffix a.toList b.toList))) ∧
+    trimSpaceImpl (refLib L) [sv a] = .ok (stringVal L.nfc (String.ofList (goTrimSpace a.toList))) ∧
+    trimImpl (refLib L) [sv a, sv b] = .ok (stringVal L.nfc (String.ofList (goTrim a.toList b.toList))) :=
+  trimImpls_ref L a b
+
+open D14b in
+/-- `trimprefix` removes the prefix once when the string starts with it and changes nothing otherwise;
+`trimsuffix` likewise at the end. -/
+theorem trimprefix_trimsuffix_spec (p t s : List Char) :
+    goTrimPrefix (p ++ t) p = t ∧ (¬ p <+: s → goTrimPrefix s p = s) ∧
+    goTrimSuffix (t ++ p) p = t ∧ (¬ p <:+ s → goTrimSuffix s p = s) :=
+  ⟨goTrimPrefix_append p t, goTrimPrefix_not, goTrimSuffix_append t p, goTrimSuffix_not⟩
+
+open D14b in
+/-- `trimspace` returns the middle of "white space · m · white space" whenever `m` neither
+starts nor ends with white space (`unicode.IsSpace`), and what it removes on either side is
+white space only. -/
+theorem trimspace_spec (l m r s : List Char)
+    (hl : ∀ c ∈ l, goIsSpace c = true) (hr : ∀ c ∈ r, goIsSpace c = true)
+    (hm1 : ∀ c, m.head? = some c → goIsSpace c = false) (hm2 : ∀ c, m.getLast? = some c → goIsSpace c = false) :
+    goTrimSpace (l ++ m ++ r) = m ∧
+    ∃ l' r', s = l' ++ goTrimSpace s ++ r' ∧ (∀ c ∈ l', goIsSpace c = true) ∧ (∀ c ∈ r', goIsSpace c = true) :=
+  ⟨trimBoth_middle _ l m r hl hr hm1 hm2, trimBoth_decomp _ s⟩
+
+open D14b in
+/-- `trim(str, cutset)` likewise with "occurs in the cutset" for white space (an empty
+string or cutset returns the string, as in Go). -/
+theorem trim_cutset_spec (cut l m r : List Char) (hne : (l ++ m ++ r) ≠ []) (hcut : cut ≠ [])
+    (hl : ∀ c ∈ l, cut.contains c = true) (hr : ∀ c ∈ r, cut.contains c = true)
+    (hm1 : ∀ c, m.head? = some c → cut.contains c = false) (hm2 : ∀ c, m.getLast? = some c → cut.contains c = false) :
+    goTrim (l ++ m ++ r) cut = m ∧ goTrim [] cut = [] ∧ goTrim m [] = m := by
+  refine ⟨?_, by simp [goTrim], by simp [goTrim]⟩
+  have h1 : (l ++ m ++ r).isEmpty = false := by cases h : (l ++ m ++ r) <;> simp_all
+  have h2 : cut.isEmpty = false := by cases cut <;> simp_all
+  simp only [goTrim, h1, h2, Bool.or_self, Bool.false_eq_true, if_false]
+  exact trimBoth_middle _ l m r hl hr hm1 hm2
+
+open D14b in
+/-- The exact error domain of `log` and `pow` on arguments inside float64: they fail iff the
+math package answers NaN, and — under the law about package math that `std.dom` probes on the
+real functions on every run — iff `logNaN` / `powNaN` holds of the float64 arguments: a negative
+number or base, `log(1, 1)`, both of number and base in `{0, +Inf}`; a finite negative base with a
+finite non-integer power. -/
+theorem log_pow_error_domain (llib plib : Num → Num → F64) (a b x y : Num)
+    (hl : NaNLaw llib logNaN) (hp : NaNLaw plib powNaN)
+    (ha : fromCtyFloat (numVal a) = .ok x) (hb : fromCtyFloat (numVal b) = .ok y) :
+    ((∃ m, logImpl llib [numVal a, numVal b] = .err m) ↔ logNaN x y = true) ∧
+    ((∃ m, powImpl plib [numVal a, numVal b] = .err m) ↔ powNaN x y = true) :=
+  ⟨(logImpl_err_iff llib a b x y ha hb).trans (hl x y), (powImpl_err_iff plib a b x y ha hb).trans (hp x y)⟩
+
+open D14b in
+/-- Consequences read off the rule: a whole-number power never fails, whatever the base; a
+non-negative base never fails; `log` of positive arguments fails only for `log(1, 1)`-like and
+`Inf/Inf` quotients. -/
+theorem pow_total_on_integer_power_or_nonnegative_base (x y : Num) (h : y.isInt = true ∨ x.sign ≠ -1) :
+    powNaN x y = false := by
+  rcases h with h | h
+  · simp [powNaN, h]
+  · simp [powNaN, h]
+
+-- d14b examples: the hypotheses are jointly satisfiable, and the functions compute
+open D14b in
+example : goSplit "a,b,,c".toList ",".toList = ["a".toList, "b".toList, [], "c".toList] := by decide
+open D14b in
+example : goSplit "aaa".toList "aa".toList = [[], "a".toList] ∧ goSplit "abc".toList [] = [['a'], ['b'], ['c']] := by decide
+open D14b in
+example : goIndex "aa".toList "baaa".toList = some 1 ∧ goIndex "x".toList "abc".toList = none := by decide
+open D14b in
+example : goTrimSpace " \t\u00a0x y\u3000\u2028\n".toList = "x y".toList ∧ goTrimSpace "\u200bx\u001f".toList = "\u200bx\u001f".toList := by decide
+open D14b in
+example : goTrim "xxhixyx".toList "xy".toList = "hi".toList ∧ goTrimPrefix "aab".toList "a".toList = "ab".toList := by decide
+open D14b in
+example : NaNLaw (domLib logNaN) logNaN ∧ NaNLaw (domLib powNaN) powNaN := ⟨domLib_law _, domLib_law _⟩
+example : fromCtyFloat (numVal (Num.ofInt (-8) 64)) = .ok (Num.ofInt (-8) 53) ∧
+    fromCtyFloat (numVal (.fin false 1 (-1) 64)) = .ok (.fin false 1 (-1) 53) := by decide
+open D14b in
+example : logNaN (Num.ofInt (-1) 53) (Num.ofInt 2 53) = true ∧ logNaN (Num.ofInt 1 53) (Num.ofInt 1 53) = true ∧
+    logNaN (Num.ofInt 0 53) (.inf false) = true ∧ logNaN (Num.ofInt 8 53) (Num.ofInt 2 53) = false ∧
+    powNaN (Num.ofInt (-8) 53) (.fin false 1 (-1) 53) = true ∧ powNaN (Num.ofInt (-8) 53) (Num.ofInt 3 53) = false ∧
+    powNaN (.inf true) (.fin false 1 (-1) 53) = false := by decide
 
 end C14
 end CtyModel
